@@ -203,7 +203,7 @@ func (s *sided) guardIssues(checkIndex bool) []sideIssue {
 						}
 					}
 				}
-				if !commaOkOrStore && !f["keyof:"+canon(x.Index)+"|"+canon(x.X)] {
+				if !commaOkOrStore && !f["keyof:"+canon(x.Index)+"|"+canon(x.X)] && !keyFromOwnKeys(s, x) {
 					out = append(out, sideIssue{x, fmt.Sprintf("reads %s with a single-value map lookup although the key is not known to be present: a missing key is indistinguishable from a stored zero/nil value", s.rs.src(x)), "lookup-unchecked", ""})
 				}
 				return
@@ -454,4 +454,23 @@ func nilBlindLibCalls(s *sided) []sideIssue {
 		return true
 	})
 	return out
+}
+
+// keyFromOwnKeys: m[k] where k expands to keys(m)[i] or sort(keys(m))[i] — the key is present by construction.
+func keyFromOwnKeys(s *sided, x *ast.IndexExpr) bool {
+	k, ok := unparen(s.exp(x.Index)).(*ast.IndexExpr)
+	if !ok {
+		return false
+	}
+	c, ok := unparen(k.X).(*ast.CallExpr)
+	if !ok || len(c.Args) != 1 {
+		return false
+	}
+	if funcHoleWho(s.rs, c.Fun) == "sort" {
+		c, ok = unparen(c.Args[0]).(*ast.CallExpr)
+		if !ok || len(c.Args) != 1 {
+			return false
+		}
+	}
+	return funcHoleWho(s.rs, c.Fun) == "keys" && canon(s.exp(c.Args[0])) == canon(s.exp(x.X))
 }
